@@ -119,6 +119,9 @@ template <class Compression> class ReadStream : public ReadBase {
       back_.SetOutput(to, amount);
       do {
         if (!back_.AvailInput()) ReadInput(thunk);
+        // No input left in the file: unless this call produces output or ends the stream, it is truncated.
+        const bool at_eof = !back_.AvailInput();
+        const uint8_t *const before = back_.NextOutput();
         if (!back_.Process()) {
           // reached end, at least for the compressed portion.
           std::size_t ret = back_.NextOutput() - static_cast<const uint8_t*>(to);
@@ -127,6 +130,7 @@ template <class Compression> class ReadStream : public ReadBase {
           // We did not read anything this round, so clients might think EOF.  Transfer responsibility to the next reader.
           return Current(thunk)->Read(to, amount, thunk);
         }
+        UTIL_THROW_IF(at_eof && back_.NextOutput() == before, CompressedException, "Compressed stream ended prematurely.");
       } while (back_.NextOutput() == to);
       return back_.NextOutput() - static_cast<const uint8_t*>(to);
     }
